@@ -666,3 +666,31 @@ Proof.
   split; [repeat constructor; simpl; tauto|split; [|reflexivity]].
   intros H. specialize (H ((1, 2, 3), 7)%N). vm_compute in H. tauto.
 Qed.
+
+(* reading of the two-wrapper rollback clause: if the checker accepts the content observed after a
+   rollback of wrapper w (and the history is in scope at that step), every quad is present exactly
+   if it was present before w first changed it in this transaction (quads w changed), or just before
+   the rollback (all other quads - in particular the other wrapper's changes stay) *)
+Lemma spec_step_rollback_reading s w now s' :
+  spec_step s (ARollback w) now = Good s' ->
+  NoDup now /\ forall q, q_mem q now = expect_after_rollback s w q.
+Proof.
+  unfold spec_step. destruct (nodupb quad_eqb now) eqn:En; cbn [negb]; [|discriminate].
+  cbn [changed_by fst untouched forallb negb op_wrapper].
+  destruct (rollback_ok s w now) eqn:Er; [|discriminate]. intros _.
+  split; [now apply (@nodupb_spec quad quad_eqb quad_eqb_spec)|].
+  intros q. unfold rollback_ok in Er. rewrite forallb_forall in Er.
+  destruct (q_mem q now) eqn:E1.
+  - apply q_mem_In in E1. specialize (Er q (in_or_app _ _ _ (or_introl E1))).
+    apply Bool.eqb_prop in Er. rewrite <- Er. symmetry. now apply q_mem_In.
+  - unfold expect_after_rollback. destruct (pre_get (get_pre s w) q) as [b|] eqn:Ep.
+    + assert (Hin : In q (map fst (get_pre s w))).
+      { clear -Ep. induction (get_pre s w) as [|[q' b'] r IH]; simpl in *; [discriminate|].
+        destruct (quad_eqb_spec q q') as [->|]; [now left|right; auto]. }
+      specialize (Er q (in_or_app _ _ _ (or_intror (in_or_app _ _ _ (or_intror Hin))))).
+      apply Bool.eqb_prop in Er. unfold expect_after_rollback in Er. now rewrite Ep, E1 in Er.
+    + destruct (q_mem q (prev s)) eqn:E2; auto. apply q_mem_In in E2.
+      specialize (Er q (in_or_app _ _ _ (or_intror (in_or_app _ _ _ (or_introl E2))))).
+      apply Bool.eqb_prop in Er. unfold expect_after_rollback in Er. rewrite Ep, E1 in Er.
+      apply q_mem_In in E2. congruence.
+Qed.
